@@ -1,6 +1,9 @@
 """C18 - execution history is append-only; finished records never change."""
-from vt.harness.common import history_body, ob, rerun_sets
+from vt.harness.common import history_body, ob, position_slices, rerun_sets
 from vt.monitors import C18AppendOnly
+
+
+OWN_THOROUGH = True
 
 
 def append_only(ch, ctx, did, **kw):
@@ -11,9 +14,15 @@ def obligations(tier):
     obs = []
     plain = [("D02", 5), ("D05b", 5), ("D06p", 6), ("D09", 8), ("D09b", 8), ("D10", 5), ("D11", 5), ("D12p", 6), ("D13i", 4), ("D15", 4), ("D22", 6), ("D22b", 6), ("D23", 6)]
     for did, steps in plain:
-        o = ob("C18", "e2c." + did, "vt.harness.C18:append_only", {"did": did, "steps": steps, "tokens": True, "bits": True}, timeout=900)
-        o["antecedents"] = ["c18_compared", "c18_decided"]
-        obs.append(o)
+        if tier == "quick":
+            o = ob("C18", "e2c." + did, "vt.harness.C18:append_only", {"did": did, "steps": steps, "tokens": True, "bits": True}, timeout=900)
+            o["antecedents"] = ["c18_compared", "c18_decided"]
+            obs.append(o)
+        else:
+            # one more completion event and one restart of the conductor at any single boundary
+            o = ob("C18", "e2c." + did, "vt.harness.C18:append_only", {"did": did, "steps": steps + 1, "tokens": True, "bits": True, "crash": "one"}, timeout=3600)
+            o["antecedents"] = ["c18_compared", "c18_decided"]
+            obs.extend(position_slices(o, "crash_at", steps + 3))
     reruns = [("D18", 5, ["s/0", "a/0", "b/0", "c/0", "j/0"]), ("D05b", 5, ["s/0", "a/0", "b/0", "j/0", "z/0"]), ("D10", 4, ["s/0", "a/0", "b/0", "c/0"]), ("D11", 4, ["w/0", "z/0"])]
     if tier == "quick":
         reruns = [r for r in reruns if r[0] in ("D18", "D11")]
@@ -24,8 +33,8 @@ def obligations(tier):
     o["fixed"] = {"rr:init/0": False, "rr:fast/0": False, "rr:done/0": False}
     obs.extend(rerun_sets(o, ["slow/0", "work/0"], 2))
     for did, steps, labels in reruns:
-        o = ob("C18", "e2c.rerun." + did, "vt.harness.C18:append_only", {"did": did, "steps": steps, "tokens": True, "rerun": "explicit", "rerun_steps": 3 if tier == "quick" else 5, "rerun_ok": tier == "quick"}, timeout=1200)
+        o = ob("C18", "e2c.rerun." + did, "vt.harness.C18:append_only", {"did": did, "steps": steps, "tokens": True, "rerun": "explicit", "rerun_steps": 3 if tier == "quick" else 4, "rerun_ok": True, "rerun_order": tier == "quick"}, timeout=1200)
         o["antecedents"] = ["c18_compared", "c18_decided"]
-        obs.extend(rerun_sets(o, labels, 2 if tier == "quick" else len(labels)))
+        obs.extend(rerun_sets(o, labels, 2 if tier == "quick" else 3))
     obs.append(ob("C18", "twin.D06p", "vt.harness.C18:append_only", {"did": "D06p", "steps": 6, "twin": True}, timeout=120))
     return obs
